@@ -69,6 +69,8 @@ types = [
         field("audit", ref("Inner"), optional=True),
         field("deep", ref("Outer"), optional=True),
     ]),
+    # excluded sibling fields of which one name is a string prefix of the other (id / idx, name / nameSuffix)
+    record("Pfx", [field("id", prim("int64"), optional=True), field("idx", prim("int64"), optional=True), field("name", prim("string")), field("nameSuffix", prim("string"), optional=True), field("free", prim("string"), optional=True)]),
     # a record that includes a record living in ANOTHER namespace (hence another Go package): the embedded
     # partial-update helper structs have to be qualified and imported
     record("Doc", [field("title", prim("string")), field("pages", prim("int32"), optional=True)], includes=["Inner"], ns="fam.docs"),
@@ -155,6 +157,9 @@ resources = [
     # every generated resource file imports
     resource("fam.kw", [("kw", ("type", prim("int64")))], ref("Inner"), [m("get", True), m("update", True), m("delete", True), m("batch_get", False)]),
     resource("fam.kw.sub", [("kw", ("type", prim("int64"))), ("sub", ("restli", prim("string")))], ref("Inner"), [m("get", True), m("create", False), m("get_all", False)]),
+    resource("fam.pfx", [("pfx", ("k", prim("int64")))], ref("Pfx"),
+        [m("get", True), m("create", False), m("batch_create", False), m("update", True), m("batch_update", False), m("partial_update", True), m("batch_partial_update", False)],
+        ro=["id", "idx"], co=["name", "nameSuffix"]),
     # one kind of annotation only: the generator picks the exclusion set per method from which lists are non-empty
     resource("fam.coonly", [("coOnly", ("id", prim("int64")))], ref("CoOnly"),
         [m("get", True), m("create", False), m("batch_create", False), m("update", True), m("batch_update", False), m("partial_update", True), m("batch_partial_update", False)],
